@@ -15,10 +15,10 @@ LEVEL = "exploration"
 EXHAUSTIVE_LEN = {"quick": 3, "thorough": 4}
 FAULT_LEN = {"quick": 2, "thorough": 3}
 SAMPLED = {"quick": 600, "thorough": 24000}
-RULE = ("program = sequence of calls over {begin, send(p0), send(p1), two concurrent send()s to p0 and p1 (one AddPartitionsToTxn names both), send_offsets_to_transaction, commit, abort, "
+RULE = ("program = sequence of calls over {begin, send(p0), send(p1), two concurrent send()s to p0 and p1 (one AddPartitionsToTxn names both), send_offsets_to_transaction (one partition / two partitions in one call), commit, abort, "
         "transaction() context exit without / with exception, context whose body keeps running 0.6 s after a fire-and-forget send and then exits normally / with an exception}; after every call the harness waits until the cluster has "
         "seen no transactional-class request (Produce, AddPartitionsToTxn, AddOffsetsToTxn, TxnOffsetCommit, EndTxn) for a "
-        "quiet period. Enumerated: every sequence of length <= L without fault (quick L=3: 1,463, thorough L=4: 16,104), every "
+        "quiet period. Enumerated: every sequence of length <= L without fault (quick L=3: 1,884, thorough L=4: 22,620), every "
         "sequence of length <= L' (quick 2, thorough 3) x each of 24 single scripted faults (abortable: TOPIC/GROUP "
         "authorization at AddPartitionsToTxn / AddOffsetsToTxn / TxnOffsetCommit; fatal: INVALID_PRODUCER_EPOCH, "
         "TRANSACTIONAL_ID_AUTHORIZATION_FAILED, INVALID_PRODUCER_ID_MAPPING, INVALID_TXN_STATE, OUT_OF_ORDER_SEQUENCE_NUMBER at "
@@ -65,6 +65,9 @@ def _cases(tier, seed):
         prefix = ("begin", "send:0", "offsets:7") if f["api"] in ("AddOffsetsToTxn", "TxnOffsetCommit") else ("begin", "send:0")
         for seq in txn_gen.c16_sequences(2 if tier == "quick" else 3):
             out.append(("prefixed_fault", prefix + seq, label, f))
+        if f["api"] == "TxnOffsetCommit":      # the same with the offsets of two partitions in the faulted request
+            for seq in txn_gen.c16_sequences(2):
+                out.append(("prefixed_fault", ("begin", "send:0", "offsets:9:multi") + seq, label, f))
     rng = random.Random(f"C16/{seed}")
     for _ in range(SAMPLED[tier]):
         seq = tuple(rng.choice(txn_gen.ALPHABET) for _ in range(rng.randint(4, 6)))
